@@ -85,6 +85,7 @@ func (o *Obs) String() string {
 var errorCtors = []string{"Error", "TypeError", "ReferenceError", "SyntaxError", "RangeError", "EvalError", "URIError"}
 
 type renderer struct {
+	next   int
 	ids    map[*goja.Object]int
 	protos map[*goja.Object]string
 }
@@ -122,7 +123,8 @@ func (r *renderer) render(v goja.Value) string {
 				}
 			}
 			if !ok {
-				k = len(r.ids) + 1
+				r.next++
+				k = r.next
 			}
 			r.ids[o] = k
 		}
